@@ -324,3 +324,4 @@ _patch('C16', 'level_note', 'Native bodies: for 128 of the 131 natives', 'The ki
 _patch('C07', 'level_text', 'Unbounded deductive proof,', 'A launched fiber starts with exactly the callee slot and the arguments of the call it was split from, in order (splitcopy unit: the stack-filling statements of the real Fiber::split; D38 found and fixed: slot 0 was the function, so launching a bound method or a class with an initialiser panicked the host). Unbounded deductive proof,')
 _patch('C01', 'level_text', 'Unbounded proof', 'Implicit returns (parserblk / parserd units, the real Parser::block / expr_stmt / method / function / lambda / fun_body): the statements of a block are parsed in the mode the block was given, a nested block hands the enclosing mode back, every function, lambda and method body (static or not) may end in an implicit return except an initialiser, and an expression without a semicolon is one exactly where allowed; an explicit return (parserret unit, the real Parser::return_) carries the expression after the keyword, none for `return;`, and is refused outside functions and, with a value, in an initialiser; an if statement is condition, block and, only after `else`, the next block or a whole if statement (Parser::if_); an assignment operator after a target builds the assignment / send / compound assignment its token spells with the one whole expression after it (parserasg unit, Parser::assign); while and for statements take condition / loop variable, iterable and body in source order (parserloop unit, the closure bodies of Parser::while_ / for_); a let has the value parsed after `=` and none without one (Parser::let_). Unbounded proof')
 _patch('C11', 'level_text', 'so a native body only runs on arguments of the declared kinds', 'the length of a string is the number of its characters, not of its bytes, and s[i] is the one-character string of the i-th character (negative i from the end; fractional, NaN, infinite and out-of-range indices raise) (strlen unit: the real bodies of String.len and of string indexing); so a native body only runs on arguments of the declared kinds')
+_patch('C04', 'level_text', 'The compiler half (compilerd / catchd units', 'The parser half (parsertry unit, the real Parser::try_block): the protected block and every catch clause in source order with its variable, its class filter only where one is written, and its block; at least one catch. The compiler half (compilerd / catchd units')
